@@ -9,6 +9,7 @@
 #include "common.hpp"
 #include <cerrno>
 #include <memory>
+#include <vector>
 
 struct Cpp {
   std::unique_ptr<primesieve::iterator> it{new primesieve::iterator()};
@@ -83,12 +84,36 @@ template <class B> void run_history()
   std::cout << "END" << std::endl;
 }
 
+// MULTI k: k independent C++ (even index) / C (odd index) iterators driven by lines "<idx> <op...>"
+static void run_multi(int k)
+{
+  std::vector<std::unique_ptr<Cpp>> cpp; std::vector<std::unique_ptr<C>> c;
+  for (int i = 0; i < k; i++) { cpp.emplace_back(new Cpp()); c.emplace_back(new C()); }
+  std::string line;
+  while (std::getline(std::cin, line)) {
+    auto t = split(line);
+    if (t.empty()) continue;
+    if (t[0] == "END") break;
+    int idx = atoi(t[0].c_str()); std::string r;
+    bool isc = idx % 2 == 1;
+    if (t[1] == "N") r = isc ? c[idx]->next() : cpp[idx]->next();
+    else if (t[1] == "P") r = isc ? c[idx]->prev() : cpp[idx]->prev();
+    else if (t[1] == "J") { if (isc) c[idx]->jump(u64(t[2]), u64(t[3])); else cpp[idx]->jump(u64(t[2]), u64(t[3])); r = "-"; }
+    else if (t[1] == "C") { if (isc) c[idx]->clear(); else cpp[idx]->clear(); r = "-"; }
+    else if (t[1] == "NEW") { if (isc) c[idx]->fresh(u64(t[2]), u64(t[3])); else cpp[idx]->fresh(u64(t[2]), u64(t[3])); r = "-"; }
+    else r = "?";
+    std::cout << idx << " | " << r << std::endl;
+  }
+  std::cout << "END" << std::endl;
+}
+
 int main()
 {
   std::string line;
   while (std::getline(std::cin, line)) {
     auto t = split(line);
     if (t.empty()) continue;
+    if (t[0] == "MULTI") { std::cout << line << std::endl; run_multi(atoi(t[1].c_str())); continue; }
     if (t[0] == "ITER") {
       std::cout << line << std::endl;
       if (t[1] == "cpp") run_history<Cpp>(); else run_history<C>();
